@@ -697,6 +697,73 @@ class Program:
         return self.tasks[i].hash
 
 
+class TwinProgram:
+    """A(shallow) -> f -> g and B(shallow) -> f where B is evaluated after A finished (B depends on w(A(..))), so
+    that B's child f(x) is served by CSE from the backend.  `mode` = "f": main is f(1) only; "twin": [A(1), B(1, w(a))].
+    Task indices for `edit`: 0 = g, 1 = f."""
+
+    def __init__(self, ns="gctw"):
+        self.ns = ns
+        self.versions = [1, 1]
+        self.mode = "twin"
+        self.n = 2
+
+    def describe(self):
+        return dict(program="A(shallow)->f->g; B(shallow)->f after A (CSE)", mode=self.mode, versions=list(self.versions))
+
+    def edit(self, i):
+        self.versions[i] += 1
+
+    def _g(self, x):
+        return x + 100 * self.versions[0]
+
+    def expected_main(self):
+        r = self._g(1) + 1000 * self.versions[1]
+        return r if self.mode == "f" else [r, r]
+
+    def define(self):
+        from redun import task
+        vg, vf, ns = self.versions[0], self.versions[1], self.ns
+
+        @task(name="g", namespace=ns, version=str(vg))
+        def g(x):
+            return x + 100 * vg
+
+        @task(name="plus", namespace=ns, version="1")
+        def plus(x, k):
+            return x + k
+
+        @task(name="f", namespace=ns, version=str(vf))
+        def f(x):
+            return plus(g(x), 1000 * vf)
+
+        @task(name="w", namespace=ns, version="1")
+        def w(x):
+            return 0
+
+        @task(name="A", namespace=ns, version="1", check_valid="shallow")
+        def A(x):
+            return f(x)
+
+        @task(name="B", namespace=ns, version="1", check_valid="shallow")
+        def B(x, dep):
+            return f(x)
+
+        @task(name="main_f", namespace=ns, version="1")
+        def main_f():
+            return f(1)
+
+        @task(name="main_twin", namespace=ns, version="1")
+        def main_twin():
+            a = A(1)
+            return [a, B(1, w(a))]
+        self.tasks = {0: g, 1: f}
+        return main_f if self.mode == "f" else main_twin
+
+    def task_hash(self, i):
+        return self.tasks[i].hash
+
+
 def gen_program(rng, n=None, ns="gc"):
     n = n or rng.choice([2, 3, 3, 4, 4, 5])
     calls = []
@@ -760,6 +827,21 @@ def subtree_gaps(db_path: str) -> list:
 
 
 # ---------------------------------------------------------------------------------------------- histories
+def guarded(ctx, label, fn, default=None):
+    """run one scenario; an exception of the real code in a scenario that must work is a violation, not an
+    infrastructure error"""
+    try:
+        return fn()
+    except Crash:
+        raise
+    except Exception as e:  # noqa: BLE001
+        import traceback
+        ctx.violation(f"{ctx.pid}-scenario-raises", "the real code raised in a scenario that must work",
+                      dict(scenario=label, error=repr(e)[:300], where=traceback.format_exc()[-700:]),
+                      expected="no exception", actual=repr(e)[:200])
+        return default
+
+
 FLAG_NAMES = ["atomicValue", "atomicCallNode", "healSubtree", "emptyNotCurrent", "cseSubtreeFromDb", "execKeep"]
 
 # ------------------------------------------------------------------------------------------------- environment
@@ -964,89 +1046,94 @@ def compare_case(ctx, case: Case, evs, replies, tables=REC_TABLES):
 
 # ---------------------------------------------------------------------------------------------- probes
 def probe_flags(ctx, env):
-    """Which of the six behaviours does the working tree have?  Each probe is the replay of a `refuted_*` witness."""
-    from redun import task
-    flags = {}
-    I = Interner()
+    """Which of the six behaviours does the working tree have?  Each probe is the replay of a `refuted_*` witness.
+    A probe that raises (the scenario must work on any sane tree) is reported as a violation and its flags stay
+    `current`."""
+    flags = dict.fromkeys(FLAG_NAMES, False)
+    twin_case = dict(program="A(shallow)->f->g; B(shallow)->f served by CSE; edit g")
+    for part in (_probe_commits, _probe_transfer, _probe_twin, _probe_exec):
+        try:
+            part(ctx, env, flags, twin_case)
+        except Exception as e:  # noqa: BLE001
+            import traceback
+            ctx.violation(f"{ctx.pid}-witness-scenario-raises",
+                          "a basic recording / transfer scenario raised on the working tree",
+                          dict(probe=part.__name__, error=repr(e)[:300], where=traceback.format_exc()[-600:]),
+                          expected="no exception", actual=repr(e)[:200])
+    return flags, twin_case
 
-    def two_level(ns):
-        return Program(2, [[(1, 0)], []], [True, False], [(0, 1)], ns=ns)
 
+def _two_level(ns):
+    return Program(2, [[(1, 0)], []], [True, False], [(0, 1)], ns=ns)
+
+
+def _probe_commits(ctx, env, flags, twin_case):
     # atomicValue / atomicCallNode: look at every durable state of one clean run
-    prog = two_level("gcp")
+    I = Interner()
+    prog = _two_level("gcp")
     p = env.new_db()
     s = new_scheduler(p)
     tap = CommitTap(s.backend, I)
-    run_program(s, prog)
-    close_scheduler(s)
+    try:
+        run_program(s, prog)
+    finally:
+        close_scheduler(s)
     flags["atomicValue"] = all(all(h in d["tasks"] for (h, k) in d["values"] if k == "task") for d in tap.dumps)
     flags["atomicCallNode"] = all(all(any(r[0] == n[0] for r in d["subtree"]) for n in d["nodes"]) for d in tap.dumps)
+    env.probe_db = p
+    env.probe_prog = prog
+
+
+def _probe_transfer(ctx, env, flags, twin_case):
     # emptyNotCurrent / healSubtree: transfer, then look up / re-run
+    from redun.backends.db import CallNode
+    I = Interner()
+    prog, p = env.probe_prog, env.probe_db
     p2 = env.new_db()
     c = Case(env, prog, dict.fromkeys(FLAG_NAMES, False), "probe")
     c.repos = {0: p, 1: p2}
     c.transfer(0, 1)
     s2 = new_scheduler(p2)
-    main = prog.define()
-    t0 = prog.tasks[0]
-    from redun.backends.db import CallNode
-    node = s2.backend.session.query(CallNode).filter_by(task_hash=t0.hash).first()
-    hit = s2.backend._get_call_node(t0.hash, node.args_hash, s2.task_registry.task_hashes)
-    flags["emptyNotCurrent"] = hit is None
-    s2.run(main())
-    close_scheduler(s2)
+    try:
+        main = prog.define()
+        t0 = prog.tasks[0]
+        node = s2.backend.session.query(CallNode).filter_by(task_hash=t0.hash).first()
+        hit = s2.backend._get_call_node(t0.hash, node.args_hash, s2.task_registry.task_hashes)
+        flags["emptyNotCurrent"] = hit is None
+        s2.run(main())
+    finally:
+        close_scheduler(s2)
     d2 = dump_db(p2, I)
     flags["healSubtree"] = all(any(r[0] == n[0] for r in d2["subtree"]) for n in d2["nodes"])
-    # cseSubtreeFromDb: A(shallow) -> f -> g ; B(shallow) -> f (CSE) ; rows of B must contain g
-    ver = {"g": 1}
 
-    def define():
-        @task(name="g", namespace="gcq", version=str(ver["g"]))
-        def g(x):
-            return x + 100 * ver["g"]
 
-        @task(name="f", namespace="gcq", version="1")
-        def f(x):
-            return g(x)
-
-        @task(name="w", namespace="gcq", version="1")
-        def w(x):
-            return 0
-
-        @task(name="A", namespace="gcq", version="1", check_valid="shallow")
-        def A(x):
-            return f(x)
-
-        @task(name="B", namespace="gcq", version="1", check_valid="shallow")
-        def B(x, dep):
-            return f(x)
-
-        @task(name="main", namespace="gcq", version="1")
-        def main():
-            a = A(1)
-            return [a, B(1, w(a))]
-        return main
+def _probe_twin(ctx, env, flags, twin_case):
+    # cseSubtreeFromDb: A(shallow) -> f -> g ; B(shallow) -> f (CSE) ; after editing g both must change
+    prog = TwinProgram(ns="gcq")
     p3 = env.new_db()
-    s3 = new_scheduler(p3)
-    r1 = s3.run(define()())
-    close_scheduler(s3)
-    ver["g"] = 2
-    s3 = new_scheduler(p3)
-    r2 = s3.run(define()())
-    close_scheduler(s3)
-    flags["cseSubtreeFromDb"] = (r2 == [201, 201])
-    twin_case = dict(program="A(shallow)->f->g; B(shallow)->f served by CSE; edit g", run1=r1, run2=r2, expected=[201, 201])
+    res = []
+    for step in range(2):
+        s3 = new_scheduler(p3)
+        try:
+            res.append(run_program(s3, prog))
+        finally:
+            close_scheduler(s3)
+        if step == 0:
+            prog.edit(0)
+    flags["cseSubtreeFromDb"] = (res[1] == prog.expected_main())
+    twin_case.update(run1=res[0], run2=res[1], expected=prog.expected_main())
+
+
+def _probe_exec(ctx, env, flags, twin_case):
     # execKeep: transient failure of the commit of the root job's record_job_start
     p4 = env.new_db()
-    prog4 = two_level("gcr")
-    # writing commit of the root job start = 2nd (repaired record_value) or 3rd (current)
+    prog4 = _two_level("gcr")
     k = 2 if flags["atomicValue"] else 3
     s4 = new_scheduler(p4)
     ft = FaultTap(s4.backend, k)
-    r4 = run_program(s4, prog4)
-    ft.remove()
-    close_scheduler(s4)
+    try:
+        r4 = run_program(s4, prog4)
+    finally:
+        ft.remove()
+        close_scheduler(s4)
     flags["execKeep"] = (r4 == prog4.expected_main())
-    return flags, twin_case
-
-
